@@ -645,6 +645,9 @@ class dir_archive(archive):
                         f.write(_b(memo))
         except OSError:
             "failed to populate directory for '%s'" % str(key)
+        except: # could not encode: don't leave the staging directory behind
+            self._rmdir(_key)
+            raise
         # move the results to the proper place
         try: #XXX: possible permissions issues here
             self._rmdir(key) #XXX: 'key' must be a suitable dir name
